@@ -37,4 +37,15 @@ package auth
 
 // CheckObjectAccess only reads the object identifiers it is given (assumed frame condition).
 //@ func CheckObjectAccess
+//@   frame none
+
+// The access decision functions do not write to memory that their callers can observe
+// (assumed frame condition; they call into the backend, whose state is not part of the model).
+//@ func VerifyAccess
+//@   frame none
+//@ func VerifyObjectCopyAccess
+//@   frame none
+
+// UpdateACL reads its input structure and returns a new encoded ACL (assumed frame condition).
+//@ func UpdateACL
 //@   preserves-args
